@@ -113,7 +113,7 @@ def contract(qual, **kw):
     return c
 
 
-def rec(name, pyclass=None, tagged=None, invariant=None, **fields):
+def rec(name, /, pyclass=None, tagged=None, invariant=None, **fields):
     d = RecDecl(name, fields, tagged=tagged, invariant=invariant, pyclass=pyclass)
     RECS[name] = d
     if tagged:
@@ -133,6 +133,15 @@ class HeapClass:
         self.pyclass = pyclass
         self.fields = fields
         self.invariant = invariant or []
+
+
+GHOSTS = {}
+
+
+def ghostvar(name, ty):
+    """ghost state (effect trace, clock, counters): symbolic at function entry, updated only through
+    contracts that list 'ghost:<name>' under modifies"""
+    GHOSTS[name] = ty
 
 
 def heapclass(pyclass, invariant=None, **fields):
